@@ -57,3 +57,7 @@ def search(pc, it):
 def refute(pc, unknown_items):
     pc.native_search(unknown_items, 'app_search.py',
                      {'budget': 1500 if pc.tier == 'quick' else 15000, 'seed': pc.seed, 'check': ['c07', 'c08']}, 'app_case.py')
+
+
+def fallback(pc):
+    return [{'script': 'app_search.py', 'case': {'budget': 2500, 'seed': pc.seed, 'check': ['c07', 'c08']}, 'replay_script': 'app_case.py'}]
